@@ -9,6 +9,7 @@ import (
 	"fmt"
 	"io"
 	"os"
+	"path/filepath"
 	"strings"
 	"sync"
 	"syscall"
@@ -20,6 +21,7 @@ import (
 
 var errInjected = errors.New("verif: injected step failure")
 var errCancelCtx = errors.New("verif: cancel the context before COMMIT")
+var errTear = errors.New("verif: die inside store.Set")
 
 type event struct {
 	K    string   `json:"k"`           // begin-w begin-r commit rollback end-r stmt set get del list
@@ -39,6 +41,7 @@ type recorder struct {
 	seen    int
 	total   int // every boundary since the start of the process (armed or not)
 	open    int // database calls (Read / Write) and store calls in progress
+	cut     int // mode "tear": how much of the cache file the dying store.Set leaves (see tearLength)
 }
 
 func (r *recorder) enter() { r.mu.Lock(); r.open++; r.mu.Unlock() }
@@ -59,6 +62,14 @@ func (r *recorder) boundary(what string) error {
 	if r.left > 0 {
 		r.left--
 		return nil
+	}
+	if r.mode == "tear" {
+		// the process dies INSIDE a store.Set: only meaningful at a store.Set boundary
+		if what != "store.Set" {
+			return nil
+		}
+		r.fired = true
+		return errTear
 	}
 	if r.mode == "cancel" {
 		// the context of the transaction is cancelled between its last statement and COMMIT: only meaningful at a
@@ -254,12 +265,42 @@ func (b *storeBuilder) New(dir, userID string, pass []byte) (store.Store, error)
 	if err != nil {
 		return nil, err
 	}
-	return &storeWrap{inner: s, rec: b.rec}, nil
+	return &storeWrap{inner: s, rec: b.rec, dir: filepath.Join(dir, userID)}, nil
+}
+
+const (
+	storeHeaderLen = 15             // "GLUON-CACHE" + version
+	storeNonceLen  = 12             // AES-GCM nonce
+	storeBlockLen  = 64*4096 + 16   // one full sealed block
+)
+
+// tearLength: the length of the file a store.Set leaves when the process dies after
+//   0: the file was created (nothing written)   1: the header        2: header + nonce (no data block)
+//   3: in the middle of the first sealed block   4: all but the last byte   5: exactly the first full sealed block
+//   (5 needs a file of more than one block; otherwise it is the same as 4)
+func tearLength(cut int, size int64) int64 {
+	hn := int64(storeHeaderLen + storeNonceLen)
+	switch cut {
+	case 0:
+		return 0
+	case 1:
+		return storeHeaderLen
+	case 2:
+		return hn
+	case 3:
+		return hn + (size-hn)/2
+	case 5:
+		if size > hn+storeBlockLen {
+			return hn + storeBlockLen
+		}
+	}
+	return size - 1
 }
 
 func (b *storeBuilder) Delete(dir, userID string) error { return b.inner.Delete(dir, userID) }
 
 type storeWrap struct {
+	dir   string
 	inner store.Store
 	rec   *recorder
 }
@@ -279,6 +320,17 @@ func (s *storeWrap) Set(id imap.InternalMessageID, r io.Reader) error {
 	s.rec.enter()
 	defer s.rec.leave()
 	if err := s.rec.boundary("store.Set"); err != nil {
+		if errors.Is(err, errTear) {
+			// Set writes the file front to back (header, nonce, sealed blocks): what a kill after some of its write
+			// calls leaves is a prefix of the complete file. Write it completely, cut it, die.
+			s.inner.Set(id, r)
+			path := filepath.Join(s.dir, id.String())
+			if fi, e := os.Stat(path); e == nil {
+				os.Truncate(path, tearLength(s.rec.cut, fi.Size()))
+			}
+			syscall.Kill(os.Getpid(), syscall.SIGKILL)
+			select {}
+		}
 		return err
 	}
 	err := s.inner.Set(id, r)
